@@ -121,6 +121,14 @@ PiPoint(P, N, q) == LET k == Below(P, q) IN
          logs |-> [i \in 1..k |-> IF i < k THEN PLog(Icpt(P, N, i), RDiv(P[i + 1], P[i]))
                                   ELSE PLog(Icpt(P, N, k), RDiv(q, P[k]))]]
 
+\* The integral of n dp/p does not change when every pressure (data and query) is multiplied by the same factor:
+\* the same measurement expressed in another pressure unit (Pa / bar, or p/p0 of a micropore isotherm ~ 1e-9).
+\* SpreadingMC checks PiPoint(s*P, N, s*q) = PiPoint(P, N, q) for s = 10 and s = 1/100 on every enumerated data set,
+\* hence for every power of ten; the driver replays the data sets rescaled by 10^e, e in PointMagnitudeExps.
+ScaleSeq(P, s) == [i \in 1..Len(P) |-> RMul(P[i], s)]
+PtScaleInvariant(P, N, q) == \A s \in {Q(10, 1), Q(1, 100)} : PiPoint(ScaleSeq(P, s), N, RMul(q, s)) = PiPoint(P, N, q)
+PointMagnitudeExps == {-9, -6, -3, 3, 6}
+
 PVals == {Q(1, 2), Q(1, 1), Q(2, 1), Q(3, 1), Q(5, 1)}
 NVals == {Q(1, 2), Q(1, 1), Q(2, 1), Q(3, 1)}
 Lens == 2..4
@@ -200,7 +208,8 @@ GeoStep(q) ==
       deriv == {Bad("derivative", i) : i \in {ii \in 3..(n - 2) : ii % 2 = 1 /\ ~DerOK(ii)}}
   IN [bad |-> integral \cup total \cup mono \cup zero \cup deriv]
 
-\* q: [P, N (rationals), qp (rational query), lns (decimal ln of every PiPoint log argument, in order), pi (observed)]
+\* q: [P, N (rationals), qp (rational query), lns (decimal ln of every PiPoint log argument, in order), pi (observed),
+\*     e10: the object was built from 10^e10 * P and queried at 10^e10 * qp - by PtScaleInvariant the expected value is that of (P, N, qp)]
 \* The integral is a property of the SET of measured points of the branch: the storage order (a desorption
 \* branch is recorded from the highest pressure downwards) is irrelevant.  q.P / q.N arrive in stored order.
 ByPressure(P, N) == LET idx == SortSeq([i \in 1..Len(P) |-> i], LAMBDA i, j : RLt(P[i], P[j]))
